@@ -12,6 +12,11 @@ pub struct WhereClause { _p: u8 }
 pub struct NameArgs<T> { pub name_span: Span, pub args: T }
 pub struct ItemStruct { pub ident: Ident, pub generics: Generics, pub fields: Fields }
 pub struct ItemEnum { pub ident: Ident, pub generics: Generics }
+// item_type.rs allow_deprecated_for_{struct,enum}: an attribute for the emitted impl, no user expression inside
+#[verifier::external_body]
+pub fn allow_deprecated_for_struct(item: &ItemStruct) -> (r: TokenStream) ensures uses(&r) == Set::<int>::empty() { unimplemented!() }
+#[verifier::external_body]
+pub fn allow_deprecated_for_enum(item: &ItemEnum) -> (r: TokenStream) ensures uses(&r) == Set::<int>::empty() { unimplemented!() }
 impl ToTok for ImplGenerics { open spec fn tok_uses(&self) -> Set<int> { Set::empty() } }
 impl ToTok for TypeGenerics { open spec fn tok_uses(&self) -> Set<int> { Set::empty() } }
 pub uninterp spec fn seq_uses<T>(v: Seq<T>) -> Set<int>;
@@ -94,6 +99,10 @@ impl Bounds {
 
 #[verus_verify]
 impl WhereClauseBuilder {
+    // bound.rs WhereClauseBuilder::expand_self: rewrites `Self` inside the collected types / predicates (syn visitor, out of reach);
+    // the bound-resolution contracts are stated on the state before this rewrite
+    #[verifier::external_body]
+    pub fn expand_self(&mut self, to: &Type) { unimplemented!() }
     // copies the declared where-clause (Punctuated iterator, split_for_impl): out of dialect; retention is checked by layer B
     #[verifier::external_body]
     #[verus_spec(r => ensures r.types@ == Seq::<Type>::empty(), r.preds@ == declared_preds(generics), r.gps == gps_of(generics))]
